@@ -297,7 +297,7 @@ int mc_choose(int n, enum mc_kind kind, const char *label)
 /* ===================================================================================== */
 /* Scheduler                                                                             */
 /* ===================================================================================== */
-enum { T_NEW, T_READY, T_WAITFD, T_BLOCKPOLL, T_DONE };
+enum { T_NEW, T_READY, T_WAITFD, T_BLOCKPOLL, T_DONE, T_WAITCOND /* additive, C15: mc_wait_cond */ };
 
 struct task {
     char name[24];
@@ -317,6 +317,8 @@ struct task {
     int api_nb;
     int steps;
     int polls_in_api;
+    int (*cond_fn)(void *);     /* T_WAITCOND: enabled when cond_fn(cond_arg) != 0 */
+    void *cond_arg;
 };
 
 struct event {
@@ -481,6 +483,21 @@ void mc_wait_readable(int fd, const char *label)
     t->skip_point = 1;
 }
 
+/* additive (C15): the calling task is disabled until enabled(arg) returns non-zero (a modelled
+   lock held by another task, a condition variable).  "Nobody enabled" with such a task left over
+   is quiescence, i.e. a deadlock verdict for the harness to report. */
+void mc_wait_cond(int (*enabled)(void *), void *arg, const char *label)
+{
+    if (tl_task < 0 || !g_running)
+        return;
+    struct task *t = &g_tasks[tl_task];
+    t->state = T_WAITCOND;
+    t->cond_fn = enabled;
+    t->cond_arg = arg;
+    t->label = label;
+    switch_to_sched(t);
+}
+
 void mc_set_progress(int progressed)
 {
     if (tl_task >= 0)
@@ -545,6 +562,8 @@ static int task_enabled(struct task *t)
             return 1;
         return 0;
     }
+    case T_WAITCOND:
+        return t->cond_fn && t->cond_fn(t->cond_arg) != 0;
     default:
         return 0;
     }
